@@ -26,7 +26,7 @@ func init() { scenarios["C14"] = c14 }
 
 type c14pending struct {
 	items     [][]byte
-	shortSeen bool
+	shortSeen bool // a too-small read has happened and no datagram has been read since
 }
 
 func (p *c14pending) take(b []byte) bool {
@@ -70,7 +70,10 @@ func c14pipeScript(c *ctx, r *rng, nOps int, tag string, idx int) {
 		case "data":
 			nData++
 			o.T(op, fmt.Sprintf("data n=%d h=%d", len(b), fnv32(b)))
+			wasShort := pend.shortSeen
+			pend.shortSeen = false
 			if !pend.take(b) {
+				pend.shortSeen = wasShort
 				sig := "C14 read returned something that is not one whole written datagram (merged/split/truncated/duplicated)"
 				if pend.shortSeen {
 					sig = "C14 short-read-destructive: after a too-small read the datagram no longer comes out intact"
@@ -160,9 +163,6 @@ func c14pipeScript(c *ctx, r *rng, nOps int, tag string, idx int) {
 	o.T("dg.state", p.State())
 	if len(pend.items) != 0 {
 		sig := "C14 accepted datagram never delivered although the pipe was drained"
-		if pend.shortSeen {
-			sig = "C14 short-read-destructive: accepted datagram lost after a too-small read"
-		}
 		report(sig, map[string]any{"lost": hxs(pend.items), "state": p.State()})
 	}
 	o.case_(fmt.Sprint(tag, idx), nShort > 0 && nData > 1)
